@@ -2,7 +2,24 @@
 
 HASH_TB = "SHA-256 modelled as a free term algebra (collision-free, leaf/inner-node separated); shapes tied by evaluating symbolic terms with real SHA-256 in the harness"
 
+LOG_TB = "sqlite modelled as a list of rows with insertion order, a transaction as atomic; a log file as the list of its records; FormatStream / SQL iteration tied by the correspondence run only"
+
 PROPS = {
+    "C06": {
+        "lean": ["SosModel.Props.C06"],
+        "runs": [{"crate": "hbackend", "domain": "log"}],
+        "classes": r"stream-error|reverse-stream|tree-differs|reopen|commit-not-hash|log-content-unexpected",
+        "trusted_base": [HASH_TB, LOG_TB],
+        "assumptions": ["records handed to apply_records / patches are well-formed (commit = SHA-256 of bytes): the log stores what it is given (theorem stored_commit_is_hash_of_bytes has this hypothesis)",
+                        "last_commit field of file-system rows is not modelled (the database does not store it)"],
+    },
+    "C07": {
+        "lean": ["SosModel.Props.C07"],
+        "runs": [{"crate": "hbackend", "domain": "log"}],
+        "classes": r"patch-checked|refused-|rewind-|replace-all|event-patch",
+        "trusted_base": [HASH_TB, LOG_TB],
+        "assumptions": ["checkpoints carry one index (all the SDK builds); server_helpers::event_patch is composed in the harness from the real rewind / patch_checked / apply_records in the same order (the real handler is driven in the C09 harness)"],
+    },
     "C08": {
         "lean": ["SosModel.Props.C08"],
         "runs": [{"crate": "hcore", "domain": "merkle"}],
